@@ -24,6 +24,7 @@ EXPLANATION = (
     "finding F5). Connection pragmas and the open-time consistency check are unconditional. Decides these clauses, "
     "not equality with the uninterrupted build for every crash point. "
     'Also: a step interrupted while detached is retried by after_recycle (state table shared with C04); the cleanup sequence of a completed build is not conditional on what this session executed (shared with C07).'
+    " R-C05-8 what the startup rescans select reaches its reaction (def-use), and re-pending steps and storing a changed variable's value are one transaction."
 )
 ASSUMPTIONS = ["SQLite WAL transactions are atomic and durable up to the last commit (synchronous=OFF may lose the tail, never corrupt)"]
 
